@@ -784,6 +784,8 @@ pub fn budget_explicit_strategy() -> BoxedStrategy<Case> {
                 1 => (0..n, small.clone()).prop_map(move |(j, v)| Op::InsertTtl { k: key_at(j, n), v, ttl: 2, ts: TsSpec::Auto, bytes: false }),
                 1 => (0..n).prop_map(move |j| Op::Incr { k: key_at(j, n), delta: 1, ts: TsSpec::Auto, ttl: None }),
                 1 => (0..n).prop_map(move |j| Op::GetTtl { k: key_at(j, n) }),
+                2 => Just(Op::Range { start: BoundSpec::Empty, end: BoundSpec::AllFf, limit: u32::MAX }),
+                1 => (0..n).prop_map(move |j| Op::Get { k: key_at(j, n), bytes: true }),
                 1 => Just(Op::Flush),
             ];
             (Just(cfg), Just(keys), Just(t0_offset), proptest::collection::vec(op, 10..40))
